@@ -64,7 +64,12 @@ class PackageLoader(BaseLoader):
 
         for path in self.paths:
             source_path = path.joinpath(str(template_path))
-            if source_path.is_file():
+            try:
+                found = source_path.is_file()
+            except OSError:
+                # A name the file system refuses. One that is too long, for example.
+                found = False
+            if found:
                 # MyPy seems to think source_path has `Any` type :(
                 return source_path  # type: ignore
 
